@@ -300,6 +300,40 @@ def eval_writer_path(typed, header, nrec, gz):
     return info, failures
 
 
+def eval_writer_textlayer(typed, header, nrec, encoding, via):
+    """An unsorted writer given a real text layer over a binary stream (io.TextIOWrapper, what open(path, "w",
+    encoding=...) and sys.stdout are), whatever its declared encoding: once write() has returned and the caller has
+    flushed ITS handle, the record's line is in the binary stream - the writer keeps no text of its own back."""
+    import io
+    from maflib.header import MafHeader
+    from maflib.validation import ValidationStringency as VS
+    from maflib.writer import MafWriter
+    failures = []
+    info = {"steps": []}
+    raw = io.BytesIO()
+    handle = io.TextIOWrapper(raw, encoding=encoding, newline="")
+    h = MafHeader.from_lines(header, validation_stringency=VS.Silent)
+    w = MafWriter(handle, h, validation_stringency=VS.Silent) if via == "ctor" else MafWriter.from_fd(handle, h, validation_stringency=VS.Silent)
+    for j in range(nrec):
+        rec = SC.typed_record(None, "T", "N", "1", 10 + j, 10 + j) if typed else SC.untyped_record("T", "N", "1", str(10 + j), str(10 + j))
+        w += rec
+        handle.flush()
+        got = raw.getvalue().decode(encoding)
+        ok = got.endswith(str(rec) + "\n")
+        info["steps"].append((j, len(got), ok))
+        if not ok:
+            failures.append({"what": "an unsorted writer on a text layer over a binary stream (encoding %s, %s): after write() returned and the caller flushed its handle, "
+                                     "the record's line is not in the stream" % (encoding, "MafWriter(...)" if via == "ctor" else "from_fd"),
+                             "kind": "writer-deferred-textlayer", "header": header, "record_index": j, "emitted": got[-120:], "typed": typed, "records": nrec,
+                             "encoding": encoding, "via": via})
+            break
+    try:
+        w.close()
+    except Exception:  # noqa
+        pass
+    return info, failures
+
+
 def fasta_index_file(tmp, contigs):
     import os
     fai = os.path.join(tmp, "ref.fa.fai")
@@ -605,6 +639,15 @@ def writer_cases(ctx, out, rng):
                 out.failures += failures
                 out.nontrivial.add(("writer-path", tuple(header), typed, gz))
                 out.distribution["writer opened by from_path(%s)" % ("*.gz" if gz else "plain")] += 1
+    for encoding in ("utf-8", "ascii", "latin-1", "cp1252", "utf-16"):
+        for via in ("ctor", "from_fd"):
+            typed = rng.random() < 0.5
+            header = ["#version gdc-1.0.0"] + ([] if typed else ["#annotation.spec lab"])
+            out.evaluations += 1
+            _info, failures = eval_writer_textlayer(typed, header, 3, encoding, via)
+            out.failures += failures
+            out.nontrivial.add(("writer-textlayer", encoding, via, typed))
+            out.distribution["writer on a text layer over a binary stream"] += 1
 
 
 def overlap_cases(ctx, out, rng):
@@ -674,6 +717,30 @@ def eval_sorter_large(cap, sp, extra):
     return failures
 
 
+def eval_sorter_many_runs(cap, sp, runs):
+    """A small capacity and a long input: the bound holds after the 256th, 257th, ... spill as it did after the first
+    (one sorter fed cap * runs records; what is on disk is counted at a few points beyond the 256th run)."""
+    from maflib.sorter import Sorter
+    from .c07 import JsonCodec
+    failures = []
+    with tempfile.TemporaryDirectory() as tmp:
+        s = Sorter(cap, JsonCodec(), lambda x: x[0], tmp_dir=tmp, always_spill=sp)
+        total = cap * runs + 1
+        marks = {cap * 255 + 1, cap * 256, cap * 256 + 1, cap * 257 + 1, cap * 258, total}
+        for k in range(total):
+            s += ((k * 7919) % 10007, k)
+            added = k + 1
+            if added in marks:
+                spilled = spilled_count(tmp)
+                if added - spilled >= cap:
+                    failures.append({"what": "after %d adds with capacity %d (%d spill files) only %d records are on disk (%d still in memory, must be < %d)" % (
+                        added, cap, len(os.listdir(tmp)), spilled, added - spilled, cap),
+                        "kind": "sorter-not-spilling-many-runs", "capacity": cap, "always_spill": sp, "runs": runs})
+                    break
+        s.close()
+    return failures
+
+
 def spilled_count(tmp):
     import glob
     import gzip
@@ -698,6 +765,15 @@ def sorter_large_cases(ctx, out, rng):
         out.failures += eval_sorter_large(cap, sp, 60)
         out.nontrivial.add(("sorter-large", cap, sp))
         out.distribution["sorter capacity above 1024"] += 1
+
+
+def sorter_many_runs_cases(ctx, out, rng):
+    for cap in ([1, 2] if ctx.tier == "quick" else [1, 2, 3]):
+        sp = rng.random() < 0.5
+        out.evaluations += 1
+        out.failures += eval_sorter_many_runs(cap, sp, 260)
+        out.nontrivial.add(("sorter-many-runs", cap, sp))
+        out.distribution["sorter fed more than 256 runs"] += 1
 
 
 def sorter_cases(ctx, out, rng):
@@ -726,6 +802,7 @@ def run(ctx):
     overlap_unkeyable_cases(ctx, out, ctx.rng("c19-unkeyable"))
     sorter_cases(ctx, out, rng)
     sorter_large_cases(ctx, out, ctx.rng("c19-large"))
+    sorter_many_runs_cases(ctx, out, ctx.rng("c19-many-runs"))
     # own streams: the cases above are unchanged
     reader_factory_cases(ctx, out, ctx.rng("c19", "reader-factories"))
     allele_cases(ctx, out, ctx.rng("c19", "allele"))
@@ -825,12 +902,28 @@ def replay_case(ctx, failure):
         info, failures = eval_writer_path(f["typed"], f["header"], f["records"], f["gz"])
         print("implementation: per record (index, chars passed to the handle by that +=, ends with the record's line): %s" % info["steps"])
         return failures
+    elif kind == "writer-deferred-textlayer":
+        if not all(k in f for k in ("header", "typed", "records", "encoding", "via")):
+            return None
+        print("executed: %s on io.TextIOWrapper(io.BytesIO(), encoding=%r) (unsorted), %d record(s) written with +=; after every += the caller flushes its handle and looks at the binary stream" % (
+            "MafWriter(handle, ...)" if f["via"] == "ctor" else "MafWriter.from_fd(handle, ...)", f["encoding"], f["records"]))
+        info, failures = eval_writer_textlayer(f["typed"], f["header"], f["records"], f["encoding"], f["via"])
+        print("implementation: per record (index, chars in the stream, ends with the record's line): %s" % info["steps"])
+        return failures
     elif kind == "sorter-not-spilling-large":
         if not (isinstance(f.get("capacity"), int) and "always_spill" in f):
             return None
         print("executed: Sorter(capacity=%d, always_spill=%s) += %d items, spill files decoded when the number of adds reaches the capacity, a little later and at the end" % (
             f["capacity"], f["always_spill"], f["capacity"] + f.get("extra", 60)))
         failures = eval_sorter_large(f["capacity"], f["always_spill"], f.get("extra", 60))
+        print("implementation: %s" % (failures[0]["what"] if failures else "the bound held at every point looked at"))
+        return failures
+    elif kind == "sorter-not-spilling-many-runs":
+        if not (isinstance(f.get("capacity"), int) and "always_spill" in f):
+            return None
+        print("executed: Sorter(capacity=%d, always_spill=%s) += %d items (%d runs), spill files decoded around the 256th run and at the end" % (
+            f["capacity"], f["always_spill"], f["capacity"] * f.get("runs", 260) + 1, f.get("runs", 260)))
+        failures = eval_sorter_many_runs(f["capacity"], f["always_spill"], f.get("runs", 260))
         print("implementation: %s" % (failures[0]["what"] if failures else "the bound held at every point looked at"))
         return failures
     elif kind == "sorter-not-spilling-after-fault":
